@@ -258,10 +258,11 @@ pub fn run(args: &Args) -> i32 {
         return replay(args, p);
     }
     let mut report = Report::new(args, "exploration");
+    oracle::install_abort_verdict(&report.property);
     report.assume("inputs are byte strings handed to the decoders exactly as the receive path does: a datagram to PacketReader (dcid_len 0/8/20), a decrypted payload to FrameReader with the packet's type, a transport-parameter extension body to parse_from_bytes");
     report.assume("a consumer stops at the first Err of an iterator (qconnection/src/space.rs does); FrameReader does not advance past a failed frame, which is not counted as a hang");
     report.assume("error-kind reference: RFC 9000 §12.4 + table 3 (frame in a packet type that does not permit it / packet without frames = PROTOCOL_VIOLATION, unknown or malformed frame = FRAME_ENCODING_ERROR), §7.4 (TRANSPORT_PARAMETER_ERROR); gm-quic extension frames 0x3d7e90..96 taken as 0-RTT/1-RTT frames");
-    report.assume("process-killing inputs (stack overflow, allocation abort) would make this run die with a non-verdict exit status; the run completing in-process shows none exists in the explored sets");
+    report.assume("an input that makes a decoder abort the process (allocation failure, double panic) is reported by a SIGABRT handler as a violation naming the input being decoded (signature abort/decoder-killed-the-process, exit 1); a stack overflow (SIGSEGV) would still end the run with a non-verdict exit status");
 
     let started = Instant::now();
     let cap = Duration::from_secs(
